@@ -113,7 +113,7 @@ def packet_of(step, rng_hostile):
         r = random.Random(step["n"])
         kind, data = B.gen_item(r, [], [TA, "s1." + TA, "ha.local.", "_services._dns-sd._udp.local.", "s2." + TA, TB], None,
                                 r.choice(["rand", "c02valid", "c02mut", "c02out", "c02outmut", "graph", "chain", "query", "querymut", "resp", "hostile", "lookup",
-                                          "lookuptrunc", "d8", "d8b", "oversize"]))
+                                          "lookuptrunc", "d8", "d8b", "oversize", "nsec", "nsec"]))
         return data
     if k == "raw":
         return bytes.fromhex(step["data"])
@@ -359,7 +359,13 @@ def simulate(sc):
                 return
             b = log("r", data=data.hex(), addr=src[0], port=src[1])
             try:
-                lst.datagram_received(data, src)
+                with B.Guard(B.HANG_S):
+                    lst.datagram_received(data, src)
+            except B.HangDetected:
+                if b is not None:
+                    b["raised"] = "HangDetected"
+                obs["escapes"].append({"exc": "HangDetected", "block": len(obs["blocks"]) - 1, "len": len(data), "msg": "no return", "data": data.hex(), "src": list(src)})
+                obs["hung"] = True
             except Exception as e:
                 if b is not None:
                     b["raised"] = B.exc_name(e)
@@ -370,6 +376,8 @@ def simulate(sc):
         a.deliver = lambda data, src: deliver(data, src, top=False)
         infos, tasks, pending = [], [], []
         for step in sc["steps"]:
+            if obs.get("hung"):
+                break
             op = step["op"]
             try:
                 if op == "user":
@@ -431,7 +439,11 @@ def simulate(sc):
         await zc._async_close()
 
     try:
-        sim.run(main)
+        with B.Guard(B.CASE_S):
+            sim.run(main)
+    except B.HangDetected:
+        obs["hung"] = True
+        obs["escapes"].append({"exc": "HangDetected", "block": len(obs["blocks"]) - 1, "len": 0, "msg": "no return (outside datagram_received)"})
     finally:
         for cls, name, orig in saved:
             setattr(cls, name, orig)
@@ -489,11 +501,17 @@ def judge(obs, sc=None):
     bad = []
     unsafe = sc is not None and unsafe_scenario(sc)
     for e in obs["escapes"]:
+        if e["exc"] == "HangDetected":
+            bad.append(("C15:hang", "a call into the library did not return within the wall-clock budget (api stream, block %d, %d bytes): an unbounded loop" % (e["block"], e["len"])))
+            continue
         if unsafe and e["exc"] in ENC_EXC:
             bad.append((D28_SIG, D28_WHAT % (e["exc"], "datagram_received (block %d)" % e["block"])))
         else:
             bad.append(("C15:escape:%s" % e["exc"], "%s escaped datagram_received (api stream, block %d, %d bytes)" % (e["exc"], e["block"], e["len"])))
     for e in obs["errors"]:
+        if e["exc"] == "HangDetected":
+            bad.append(("C15:hang", "a timer callback or task step did not return within the wall-clock budget (api stream): %s" % e["where"][:60]))
+            continue
         if unsafe and e["exc"] in ENC_EXC:
             bad.append((D28_SIG, D28_WHAT % (e["exc"], "a timer callback (%s)" % e["where"][:60])))
         else:
@@ -571,6 +589,7 @@ def check_corpus(res, name, body, seen):
 def run_stream(res, ctx, n):
     acc = []
     seen = {}
+    hung = 0
     for name, body in corpus_scenarios():
         check_corpus(res, name, body, seen)
     for idx in range(n):
@@ -581,7 +600,20 @@ def run_stream(res, ctx, n):
             res.count("api-block:" + b["op"])
             res.nontriv(("api", b["op"], bool(b.get("cbs")), b["after"]["browsers"] > 0, b["after"]["lookups"] > 0, b["after"]["cached"] > 0) if "after" in b else ("api", b["op"], "raised"))
         for sig, what in judge(obs, sc):
-            B.violate_limited(res, seen, sig, what, {"scenario": sc})
+            hd = [e for e in obs["escapes"] if e["exc"] == "HangDetected" and "data" in e]
+            if sig == "C15:hang" and hd:
+                B.violate_limited(res, seen, sig, what, {"scenario": {"seed": sc["seed"], "idx": sc["idx"], "steps": [
+                    {"op": "register", "name": "s1." + TA, "type": TA, "server": "ha.local.", "port": 80, "coop": True},
+                    {"op": "lookup", "inst": "i1", "type": TB, "timeout": 3000},
+                    {"op": "deliver", "kind": "raw", "data": hd[0]["data"], "src": hd[0]["src"]}]}})
+            else:
+                B.violate_limited(res, seen, sig, what, {"scenario": sc})
+        if obs.get("hung"):
+            hung += 1
+            if hung >= 2:
+                res.notes.append("api stream stopped after %d scenarios: %d of them contained a call into the library that did not return" % (idx + 1, hung))
+                break
+            continue          # the block log of a hung scenario is not replayed
         acc.append((sc, obs))
     if not ctx["driver_ok"] or not acc:
         return
